@@ -58,8 +58,10 @@ def gen(run_seed: int, tier: str) -> dict:
             world.setdefault("extra", {})[t.pick(dirs0, "ign_dir") + "/.thailintignore"] = "\n".join(pats) + "\n"
     files = dict(world["files"])            # generation-time model of the tree
     ndup, nstr = 3, 3
-    ops = [{"op": "new", "obj": "L0", "root": "proj"}]
+    ctor0 = t.pick(["linter", "linter", "linter_cfg", "orch", "orch_cfg"], "ctor")
+    ops = [{"op": "new", "obj": "L0", "root": "proj", "ctor": ctor0}]
     live = {"L0": "proj"}
+    ctors = {"L0": ctor0}
     cwd = "proj"
     nobj = 1
     uid = [0]
@@ -93,6 +95,8 @@ def gen(run_seed: int, tier: str) -> dict:
             obj = t.pick(sorted(live), "obj")
             rootname = live[obj]
             api = t.pick(LINT_APIS, "api")
+            if ctors.get(obj, "linter").startswith("orch") and api == "linter":
+                api = t.pick(["orch_files", "orch_dir"], "api_orch")     # a bare Orchestrator has no .lint()
             fs = sorted(files) if rootname == "proj" else sorted(world2["files"])
             dirs = sorted({f.split("/")[0] for f in fs if "/" in f})
             op = {"op": "lint", "obj": obj, "api": api, "root": rootname, "recursive": not t.chance(1, 8, "norec"),
@@ -100,6 +104,9 @@ def gen(run_seed: int, tier: str) -> dict:
             if api == "linter":
                 kind = t.pick(["dir", "dir", "subdir", "file", "file"], "target")
                 op["as_str"] = bool(t.draw(2, "as_str"))
+                if t.chance(1, 5, "rules_filter"):
+                    op["rules"] = t.sample(["nesting.excessive-depth", "dry.duplicate-code", "magic-numbers.numeric-literal", "srp.violation",
+                                            "stringly-typed.repeated-validation", "file-placement"], 1 + t.draw(3, "nrules"), "rules")
             elif api in ("orch_dir", "orch_dir_par"):
                 kind = t.pick(["dir", "subdir"], "target")
             elif api in ("orch_files", "orch_files_par"):
@@ -186,7 +193,8 @@ def gen(run_seed: int, tier: str) -> dict:
             nobj += 1
             root = "proj" if t.chance(2, 3, "sameroot") else "proj2"
             live[name] = root
-            ops.append({"op": "new", "obj": name, "root": root, "as_str": bool(t.draw(2, "as_str"))})
+            ctors[name] = t.pick(["linter", "linter", "linter_cfg", "orch", "orch_cfg"], "ctor")
+            ops.append({"op": "new", "obj": name, "root": root, "as_str": bool(t.draw(2, "as_str")), "ctor": ctors[name]})
         elif k < 96 and len(live) > 1:
             name = t.pick(sorted(live), "drop")
             del live[name]
@@ -208,7 +216,9 @@ def gen(run_seed: int, tier: str) -> dict:
             name = f"L{nobj}"
             nobj += 1
             live[name] = "proj"
+            ctors[name] = t.pick(["linter", "linter_cfg", "orch", "orch_cfg"], "ctor")
             ops[-1]["new_obj"] = name
+            ops[-1]["ctor"] = ctors[name]
         elif k < 98:
             dirs = sorted({f.split("/")[0] for f in files if "/" in f})
             cwd = t.pick(["proj", "proj", "home", "proj2"] + [f"proj/{d}" for d in dirs[:2]], "cwd")
@@ -409,19 +419,19 @@ def _execute(zy, sc: dict, W: World) -> dict:
             else:
                 W.delete(op["file"])
             r = zy.scall(sid, "vsim.subject:s_new", {"env": run.env(seed_i, None, "tape", subj_tmp), "name": op["new_obj"],
-                                                      "root": run.path_of("proj")}, timeout=60)
+                                                      "root": run.path_of("proj"), "ctor": op.get("ctor")}, timeout=60)
             if not r["ok"]:
                 run.failures.append(_fail("history", "constructor-raised", op="reconfig", exc=r.get("exc_type"), msg=r.get("exc")))
                 alive = r.get("kind") == "exception"
-            run.objs[op["new_obj"]] = {"root": "proj", "first_cwd": None, "as_str": None}
+            run.objs[op["new_obj"]] = {"root": "proj", "first_cwd": None, "as_str": None, "ctor": op.get("ctor")}
             run.pending_events += 1
         elif kind == "new":
             r = zy.scall(sid, "vsim.subject:s_new", {"env": run.env(seed_i, None, "tape", subj_tmp), "name": op["obj"],
-                                                      "root": run.path_of(op["root"]), "as_str": op.get("as_str")}, timeout=60)
+                                                      "root": run.path_of(op["root"]), "as_str": op.get("as_str"), "ctor": op.get("ctor")}, timeout=60)
             if not r["ok"]:
                 run.failures.append(_fail("history", "constructor-raised", op="new", exc=r.get("exc_type"), msg=r.get("exc")))
                 alive = r.get("kind") == "exception"
-            run.objs[op["obj"]] = {"root": op["root"], "first_cwd": None, "as_str": op.get("as_str")}
+            run.objs[op["obj"]] = {"root": op["root"], "first_cwd": None, "as_str": op.get("as_str"), "ctor": op.get("ctor")}
         elif kind == "drop":
             zy.scall(sid, "vsim.subject:s_drop", {"env": run.env(seed_i, None, "tape", subj_tmp), "name": op["obj"]}, timeout=60)
             run.objs.pop(op["obj"], None)
@@ -463,7 +473,7 @@ def _listdir(d):
 
 def _lint_step(run: _Run, sid, i, op, seed_i, subj_tmp, sc_out) -> bool:
     W, zy = run.W, run.zy
-    sop = {k: op.get(k) for k in ("api", "obj", "recursive", "W", "as_str", "cmd", "parallel")}
+    sop = {k: op.get(k) for k in ("api", "obj", "recursive", "W", "as_str", "cmd", "parallel", "rules")}
     obj = run.objs.get(op["obj"], {"root": op["root"], "first_cwd": run.cwd})
     # ---- subject: tape-permuted arguments and walk order
     tape_vals = op.get("tape")
@@ -500,7 +510,8 @@ def _lint_step(run: _Run, sid, i, op, seed_i, subj_tmp, sc_out) -> bool:
     run.tmp_n += 1
     otmp = str(W.tmp / f"oracle-{run.tmp_n}")
     sop_o = dict(sop, paths=run.targets(op, False, None))
-    oarg = {"env": run.env(seed_i, None, "sorted", otmp, "fifo"), "op": sop_o, "root": run.path_of(obj["root"]), "as_str": obj.get("as_str")}
+    oarg = {"env": run.env(seed_i, None, "sorted", otmp, "fifo"), "op": sop_o, "root": run.path_of(obj["root"]), "as_str": obj.get("as_str"),
+            "ctor": obj.get("ctor")}
     o = zy.call("vsim.subject:o_lint", oarg, timeout=OP_TIMEOUT, exit="finalize")
     snap2 = W.snapshot()
     d = diff_snapshots(snap1, snap2)
